@@ -578,13 +578,17 @@ def doStop (cfg : Cfg) (st : St) (wipe : Bool) (pout : Option ProdRes) (mouts : 
   let (st4, obs4) := cancelAll st3 st3.outstanding
   (st4, obs2 ++ obs3 ++ obs4)
 
+/-- `send_messages`: queue the request, count it, remember its Deferred -/
+def enqueue (st : St) (sid : Sid) (topic : Topic) (key : Option (List UInt8)) (msgs : List (Option Nat)) : St :=
+  { st with nextSid := st.nextSid + 1,
+            queue := st.queue ++ [{ sid, topic, key, msgs }],
+            msgCount := st.msgCount + msgs.length,
+            byteCount := st.byteCount + msgBytes msgs,
+            outstanding := st.outstanding ++ [sid] }
+
 /-- `send_messages` past its validation -/
 def doSend (cfg : Cfg) (st : St) (sid : Sid) (topic : Topic) (key : Option (List UInt8)) (msgs : List (Option Nat)) : St × List Ob :=
-  checkSendBatch cfg { st with nextSid := st.nextSid + 1,
-                               queue := st.queue ++ [{ sid, topic, key, msgs }],
-                               msgCount := st.msgCount + msgs.length,
-                               byteCount := st.byteCount + msgBytes msgs,
-                               outstanding := st.outstanding ++ [sid] }
+  checkSendBatch cfg (enqueue st sid topic key msgs)
 
 /-! ## the step function -/
 
